@@ -509,6 +509,23 @@ let handle (line : string) : string =
         | Err -> Buffer.add_string b "ERR"
         | Panic -> Buffer.add_string b "PANIC"
         | OutOfFuel -> Buffer.add_string b "OUTOFFUEL")
+   | "XD" ->
+       let ds = get_dict (next t) in
+       let bs = next_bytes t in
+       (match dec_msg (nat_of_int !lim) (dict_fn ds) bs with
+        | Ok m -> Buffer.add_string b "OK "; pr_msg b m; pr_enc b m; pr_oracle b ds m (Some bs)
+        | Err -> Buffer.add_string b "ERR"
+        | Panic -> Buffer.add_string b "PANIC"
+        | OutOfFuel -> Buffer.add_string b "OUTOFFUEL")
+   | "XO" ->
+       let ds = get_dict (next t) in
+       let _ = next_int t in
+       let bs = next_bytes t in
+       (match dec_msg (nat_of_int !lim) (dict_fn ds) bs with
+        | Ok m -> Buffer.add_string b "OK "; pr_msg b m; pr_enc b m; pr_oracle b ds m (Some bs)
+        | Err -> Buffer.add_string b "ERR"
+        | Panic -> Buffer.add_string b "PANIC"
+        | OutOfFuel -> Buffer.add_string b "OUTOFFUEL")
    | "CHK" ->
        (* CHK <dict> <frame> <msgobs>: is the observed tree the one the octets denote, and what is its reference encoding *)
        let ds = get_dict (next t) in
@@ -524,7 +541,7 @@ let handle (line : string) : string =
        Buffer.add_string b " NOMM "; Buffer.add_string b (bool01 (List.for_all nommb m.m_avps))
    | "UTF8" ->
        let bs = next_bytes t in Buffer.add_string b (bool01 (utf8_valid bs))
-   | "LEAFDEC" ->
+   | "LEAFDEC" | "LEAFDECD" ->
        (* LEAFDEC <ty> <vl> <octets> *)
        let ty = ty_of_tok (next t) in let vl = next_n t in let bs = next_bytes t in
        (match dec_leaf ty vl bs with
